@@ -326,6 +326,7 @@ type countingCtx struct {
 	at    int
 	ch    chan struct{}
 	fired bool
+	why   error // what Err() reports once fired (nil: context.Canceled); a context also ends by its deadline
 }
 
 // BudgetCtx is a context that reports cancellation at the n-th poll: a reference search that a bogus
@@ -347,6 +348,9 @@ func (c *countingCtx) Done() <-chan struct{} {
 
 func (c *countingCtx) Err() error {
 	if c.fired {
+		if c.why != nil {
+			return c.why
+		}
 		return context.Canceled
 	}
 	return nil
